@@ -59,14 +59,22 @@ Theorem C11_restore_removed_fails : forall h id, forallb wop_ok h = true ->
 Proof. exact C11_restore_removed_fails_l. Qed.
 Print Assumptions C11_restore_removed_fails.
 
-(* operations on one channel never change what is restored for another — not even half way through *)
+(* operations on one channel never change what is restored for another — not even half way through;
+   a restart (wop_id = None) changes nothing for any channel *)
 Theorem C11_frame : forall h o, forallb wop_ok h = true -> wop_ok o = true ->
   let W := fst (wrun h) in let s := snd (wrun h) in
   forall W' x ws, wstep W s o = (W', x, ws) ->
-  forall b, b <> wop_id o -> forall k, (k <= length ws)%nat ->
+  forall b, wop_id o <> Some b -> forall k, (k <= length ws)%nat ->
     restore_chan (apply_atomics s (firstn k ws)) b = restore_chan s b.
 Proof. exact C11_frame_l. Qed.
 Print Assumptions C11_frame.
+
+(* histories may contain restarts (WRestart): the registry is then rebuilt from the store alone, and it
+   is the same registry, so all views above hold after any number of restarts *)
+Theorem C11_restart_keeps_registry : forall h, forallb wop_ok h = true ->
+  wstep (fst (wrun h)) (snd (wrun h)) WRestart = (fst (wrun h), OK, []).
+Proof. exact C10_restart_l. Qed.
+Print Assumptions C11_restart_keeps_registry.
 
 (* ---------- non-vacuity: three channels over three peers, one with a parent, one removed ---------- *)
 Definition yid (b : Byte.byte) : bytes := repeat b 32.
@@ -83,7 +91,7 @@ Definition yH : list wop :=
   ++ yopen Byte.x03 ++
   [ WCreate (yP Byte.x06) 0 [ypeer Byte.x05] None ]
   ++ yopen Byte.x09 ++
-  [ WOp (yid Byte.x03) OSetRegistered; WOp (yid Byte.x03) OSetWithdrawing ].
+  [ WRestart; WOp (yid Byte.x03) OSetRegistered; WRestart; WOp (yid Byte.x03) OSetWithdrawing ].
 Definition yRemove : wop := WOp (yid Byte.x03) OSetWithdrawn.
 
 Example C11_nonvacuous :
